@@ -525,6 +525,53 @@ class DecoderAnalysis:
             prev = obligations.get(k)
             obligations[k] = ok if prev is None else (prev and ok)
 
+        NARROW = {"u8": 255, "u16": 65535, "u32": 4294967295}
+
+        def narrow_overflow(bb, t, facts):
+            """`a + b` / `a * b` / `a - b` checked in a type narrower than usize on a non-constant value: the Overflow assert is a panic
+            in debug builds and a silent wrap-around in release builds (after which a length test no longer means what it says)"""
+            c = t["cond"]
+            if c[0] not in ("cp", "mv") or not c[1][1]:
+                return
+            tl = c[1][0]
+            ty = body.ty(tl)["s"]
+            if not (ty.startswith("(") and ty.endswith(", bool)")):
+                return
+            it = ty[1:-7]
+            if it not in NARROW:
+                return
+            dfs = [d for d in body.defs(tl) if d[0] == "stmt" and d[3][0] == "bin"]
+            if len(dfs) != 1:
+                return
+            rv = dfs[0][3]
+            op = rv[1].replace("WithOverflow", "")
+            a, b2 = lz.lin(ch.origin(rv[2])), lz.lin(ch.origin(rv[3]))
+            if a is not None and b2 is not None and a.is_const() and b2.is_const():
+                return
+            goal = None
+            if a is not None and b2 is not None:
+                if op == "Add":
+                    goal = Lin(NARROW[it]) - a - b2
+                elif op == "Sub":
+                    goal = a - b2
+                elif op == "Mul" and (a.is_const() or b2.is_const()):
+                    goal = Lin(NARROW[it]) - (b2.scale(a.c) if a.is_const() else a.scale(b2.c))
+            # a decoded u8/u16/u32 is at most the maximum of its own type
+            lins_extra = {}
+            for side in (rv[2], rv[3]):
+                e0 = ch.origin(side)
+                v = lz.lin(e0)
+                if v is not None and len(v.t) == 1 and v.c == 0 and list(v.t.values())[0] == 1:
+                    sty = None
+                    if side[0] in ("cp", "mv") and not side[1][1]:
+                        sty = body.ty(side[1][0])["s"]
+                    if sty in NARROW:
+                        f = Lin(NARROW[sty]) - v
+                        lins_extra[f.key()] = f
+            fx = dict(facts)
+            fx.update(lins_extra)
+            check(bb, "overflow", [goal], "%s %s %s in %s" % (show(ch.origin(rv[2]))[:40], {"Add": "+", "Sub": "-", "Mul": "*"}.get(op, op), show(ch.origin(rv[3]))[:40], it), fx)
+
         changed = True
         rounds = 0
         OUT_EDGE = {}
@@ -553,6 +600,8 @@ class DecoderAnalysis:
                         check(bb, "bounds", [g], "index %s < %s" % (show(e[2])[:60], show(e[3])[:40]), facts, base=(e[3][1] if e[3][0] == "len" else None))
                     else:
                         check(bb, "bounds", [None], "bounds check", facts)
+                elif t["k"] == "assert" and t["msg"].startswith("Overflow"):
+                    narrow_overflow(bb, t, facts)
                 if t["k"] == "call" and t["dest"] == [0, []] and exits is not None:
                     pass
                 ef = edge_facts(bb, facts)
@@ -589,6 +638,8 @@ class DecoderAnalysis:
                     check(bb, "bounds", [g], "index %s < %s" % (show(e[2])[:60], show(e[3])[:40]), facts, base=(e[3][1] if e[3][0] == "len" else None))
                 else:
                     check(bb, "bounds", [None], "bounds check", facts)
+            elif t["k"] == "assert" and t["msg"].startswith("Overflow"):
+                narrow_overflow(bb, t, facts)
         out = []
         n_ok = 0
         for (bb, kind, desc), ok in sorted(obligations.items()):
